@@ -287,3 +287,14 @@ package streams
 //@   property C01, C06
 //@   requires bf.Reader != nil
 //@   modifies bf.Reader.*, p[*]
+
+// ---- C01: the websocket adapter turns whole messages into a byte stream; a message that was received is
+// never thrown away because the caller's buffer happens to be smaller (the session's buffered reader asks
+// with 4096 bytes while the peer's multiplexer writes frames of up to 32 KiB as one message)
+//@ ghost G_snap_binary_ok() bool
+//@ func (wstc *WebsocketTunnelConnection) Read
+//@   property C01
+//@   safe
+//@   requires wstc.Conn != nil
+//@   callsite ReadMessage#1 (mt int, msg []byte, e error) assume G_snap_binary_ok() == (mt == websocket.BinaryMessage && e == nil) "ghost snapshot: a binary message was received without error"
+//@   ensures G_snap_binary_ok() ==> err == nil                                              :a_received_message_is_never_discarded
